@@ -14,10 +14,11 @@ Local Open Scope string_scope.
 (** ** [__copy__] *)
 
 (** the copy: node tables, reference counts, free index, variable order and
-    roots of [s]; empty computed table; dynamic reordering off *)
+    roots of [s]; empty computed table; dynamic reordering off; the bound
+    [max_nodes] of [s] *)
 Theorem C02_copy_of_unfold s :
   copy_of s = St (succ s) (pred s) (refc s) (min_free s) ∅ (vars s) (lvl2var s)
-                 None false (roots s) [] None.
+                 None false (roots s) [] None (max_nodes s).
 Proof. exact eq_refl. Qed.
 
 (** totality: for every duplicate-free enumeration of the declared names the
@@ -43,6 +44,7 @@ Theorem C02_copy_spec vorder s b :
   succ b = succ s ∧ pred b = pred s ∧ refc b = refc s ∧ min_free b = min_free s ∧
   vars b = vars s ∧ lvl2var b = lvl2var s ∧ roots b = roots s ∧
   ite_tab b = ∅ ∧ last_len b = None ∧ rctx b = false ∧
+  max_nodes b = max_nodes s ∧
   Inv b ∧ (∀ L, Counts s L → Counts b L) ∧
   ∀ u, (valid b u ↔ valid s u) ∧ (∀ a, D b u a = D s u a) ∧ ∀ ρ, denv b u ρ = denv s u ρ.
 Proof. exact (copy_manager_spec vorder s b). Qed.
@@ -54,6 +56,7 @@ Proof. exact (copy_manager_spec vorder s b). Qed.
 Theorem C02_Reduced_unfold s b umap :
   Reduced s b umap ↔
   Inv b ∧ vars b = vars s ∧ lvl2var b = lvl2var s ∧ last_len b = None ∧ rctx b = false ∧
+  max_nodes b = None ∧
   dom umap = dom (succ s) ∧
   (∀ n x, umap !! n = Some x →
      valid b x ∧ (0 < x)%Z ∧ (∀ a, D b x a = D s (Z.pos n) a) ∧
@@ -65,11 +68,12 @@ Theorem C02_Reduced_unfold s b umap :
 Proof. exact (Reduced_unfold s b umap). Qed.
 
 (** [reduction] does not fail (every child is translated before its parent,
-    [find_or_add] cannot request a reordering in the new manager, the result
-    of every node is a positive reference) and the old manager is EXACTLY
+    [find_or_add] can neither request a reordering nor find the table full in
+    the new manager, which has no bound [max_nodes] whatever the bound of the
+    old one, the result of every node is a positive reference) and the old manager is EXACTLY
     what it was: the decorator [_try_to_reorder] restores the context flag
-    and the body only reads.  No hypothesis on reference counts or on
-    [last_len s]. *)
+    and the body only reads.  No hypothesis on reference counts, on
+    [last_len s] or on [max_nodes s]. *)
 Theorem C02_reduction_total vorder order s :
   Inv s → Forall (valid s) (roots s) →
   NoDup vorder → (list_to_set vorder : gset nat) = dom (vars s) →
@@ -256,4 +260,18 @@ Example C02_copy_world_steps :
   len (world2_get (fst wr) 1) = 8 ∧
   snd (step_copy_manager w 1 0 [1; 2]) = Err EOracle ∧
   snd (step_reduction w 1 0 [1; 2; 0] [5; 2]%positive) = Err EOracle.
+Proof. by vm_compute. Qed.
+
+(** the bound [max_nodes]: copied by [__copy__], absent in the reduction
+    (here the old manager is full: 8 nodes, bound 9) *)
+Example C02_copy_max_nodes :
+  let s9 := ex_s <| max_nodes := Some 9%positive |> in
+  match copy_manager [2; 0; 1] s9 with
+  | Ok b => max_nodes b = Some 9%positive
+  | Err _ => False
+  end ∧
+  match fst (reduction [2; 0; 1] [8; 3; 1; 6; 7; 4; 2; 5]%positive s9) with
+  | Ok b => max_nodes b = None ∧ len b = 8
+  | Err _ => False
+  end.
 Proof. by vm_compute. Qed.
